@@ -672,6 +672,17 @@ def shim(names):
                             return None
                 return orig_store(cls, wcls, canvas)
             patch(CanvasCache, "store", classmethod(store))
+        if "scrollable-render-moves-scrollpos" in names:
+            sc_fn = urwid.Scrollable.render.original_fn
+
+            def sc_render(self, size, focus=False):
+                before = self._trim_top
+                canv = sc_fn(self, size, focus)
+                if self._trim_top != before:
+                    self._invalidate()          # canvases cached for other sizes show the old scroll position
+                return canv
+            patch(urwid.Scrollable, "render", sc_render)
+            setattr(urwid.Scrollable, "render", wm.cache_widget_render(urwid.Scrollable))
         if "rows-cache-off" in names:
             # not a repair: rows() never answered from cached canvases; used to recognise differences that exist only
             # because some widget's rows() disagrees with its own render().rows() (property C11)
@@ -738,7 +749,8 @@ def shim(names):
 # the recorded, unrepaired defects (cache-design changes).  Defects repaired in /repo (Edit/Text focus-blind cache entry,
 # ListBox.set_focus_valign, GraphVScale.set_scale, BarGraph.set_segment_attributes, GridFlow.pack) have no shim any more:
 # if one of them comes back it is reported as [root cause: unexplained], i.e. as a new violation.
-ROOT_CAUSES = [["store-checks-widget-not-canvas"], ["pile-hidden-child"], ["columns-hidden-child"], ["frame-hidden-child"], ["overlay-hidden-top"]]
+ROOT_CAUSES = [["store-checks-widget-not-canvas"], ["pile-hidden-child"], ["columns-hidden-child"], ["frame-hidden-child"], ["overlay-hidden-top"],
+               ["scrollable-render-moves-scrollpos"]]
 
 
 def run_real(case):
